@@ -47,6 +47,9 @@ type XCell struct {
 	Formula   string   // for the formula kinds
 	ExplicitN bool     // XNumber: write t="n" instead of omitting t
 	Style     int      // s= attribute (0 or 1; both General)
+	// XBlank only: 0 = styled empty cell; 1 = <c r=".." t="s"/> (typed cell without a value,
+	// CT_Cell's v is optional); 2 = <c r=".." t="s"><v></v></c> (empty value)
+	TypedBlank int
 }
 
 // Display is the value a spreadsheet application shows for the cell under the
@@ -446,7 +449,14 @@ func xSheetXML(s *XSheet, sstIndex map[*XCell]int) []byte {
 			case XFormulaNum:
 				fmt.Fprintf(&sb, `<c%s%s><f>%s</f><v>%s</v></c>`, ref, st, ptEsc(c.Formula), c.V)
 			case XBlank:
-				fmt.Fprintf(&sb, `<c%s s="1"/>`, ref)
+				switch c.TypedBlank {
+				case 1:
+					fmt.Fprintf(&sb, `<c%s t="s"/>`, ref)
+				case 2:
+					fmt.Fprintf(&sb, `<c%s t="s"><v></v></c>`, ref)
+				default:
+					fmt.Fprintf(&sb, `<c%s s="1"/>`, ref)
+				}
 			}
 		}
 		sb.WriteString(`</row>`)
